@@ -80,7 +80,14 @@ func (s *badgerStore) CheckAndSaveNonce(ID string, nonce int64) error {
 		}
 
 		if s.nonceExpire > 0 {
-			return setExpiringItem(txn, key, &nonce, s.nonceExpire)
+			// The saved nonce must outlive its own freshness, otherwise a
+			// nonce dated ahead of our clock could be replayed once the saved
+			// value expired. Expiry has second granularity, so round up.
+			expire := s.nonceExpire
+			if untilStale := time.Unix(0, nonce).Add(s.nonceExpire).Sub(time.Now()); untilStale > expire {
+				expire = untilStale
+			}
+			return setExpiringItem(txn, key, &nonce, expire+time.Second)
 		}
 		return setItem(txn, key, &nonce)
 	})
